@@ -19,6 +19,8 @@ pub enum Op {
     RequestByteAt(u64),
     /// `request(usize::MAX - back)`: reads to the end, returns what there is.
     RequestHuge(u16),
+    /// `request(n)` with an absolute length (look-ahead of hundreds of kilobytes).
+    RequestAbs(u32),
     RequestMore,
     /// `advance(n)` with `n = frac * (buffered + 1) >> 16` (always within the buffered data).
     Advance(u16),
@@ -318,6 +320,7 @@ pub fn run_history(h: &History, which: Oracles, prop: &str) -> Result<RunStats, 
             Op::Request { num, add } => buffered * (*num as usize) / 4 + *add as usize,
             Op::RequestByteAt(k) => *k as usize,
             Op::RequestHuge(back) => usize::MAX - *back as usize,
+            Op::RequestAbs(n) => *n as usize,
             Op::ScanDigits(off) | Op::ScanNextNewline(off) => (*off as usize) % (buffered + 2),
             _ => 0,
         };
@@ -326,7 +329,7 @@ pub fn run_history(h: &History, which: Oracles, prop: &str) -> Result<RunStats, 
             continue;
         }
         let called = catch_unwind(AssertUnwindSafe(|| match op {
-            Op::Request { .. } | Op::RequestHuge(_) => R::Bytes(reader.request(req_n).to_vec()),
+            Op::Request { .. } | Op::RequestHuge(_) | Op::RequestAbs(_) => R::Bytes(reader.request(req_n).to_vec()),
             Op::RequestByte => R::Byte(reader.request_byte()),
             Op::RequestByteAt(_) => R::Byte(reader.request_byte_at_offset(req_n)),
             Op::RequestMore => R::Flag(reader.request_more()),
@@ -404,7 +407,7 @@ pub fn run_history(h: &History, which: Oracles, prop: &str) -> Result<RunStats, 
 
         // ---- check phase ----
         match (op, result) {
-            (Op::Request { .. } | Op::RequestHuge(_), R::Bytes(got)) => {
+            (Op::Request { .. } | Op::RequestHuge(_) | Op::RequestAbs(_), R::Bytes(got)) => {
                 let n = req_n;
                 requested = Some(n);
                 let l = log.borrow();
@@ -582,6 +585,7 @@ pub fn run_history(h: &History, which: Oracles, prop: &str) -> Result<RunStats, 
                 op,
                 Op::Request { .. }
                     | Op::RequestHuge(_)
+                    | Op::RequestAbs(_)
                     | Op::RequestByte
                     | Op::RequestByteAt(_)
                     | Op::RequestMore
@@ -672,6 +676,53 @@ pub fn history_strategy(max_data: usize, max_ops: usize, hostile: bool) -> impl 
         proptest::option::weighted(0.3, (any::<u16>(), errkind_strategy())),
     )
         .prop_map(|(data, mut feed, ops, fail)| {
+            if let Some((f, kind)) = fail {
+                let k = ((f as usize) * (data.len() + 1)) >> 16;
+                feed.sched.fail_at = Some((k, kind));
+            }
+            History {
+                data,
+                feed,
+                ops,
+                consumed_before: 0,
+            }
+        })
+}
+
+/// Histories over 0.3..1 MB of data whose operations look ahead by hundreds of kilobytes and then
+/// advance over most of the window (buffer growth, realign with a large window, shrinking).
+pub fn huge_history_strategy() -> impl Strategy<Value = History> {
+    let op = prop_oneof![
+        5 => prop_oneof![1000u32..=70_000, 70_000u32..=700_000].prop_map(Op::RequestAbs),
+        4 => prop_oneof![Just(u16::MAX), 50_000u16..=65_535, any::<u16>()].prop_map(Op::Advance),
+        2 => any::<u16>().prop_map(Op::AdvanceWithBuf),
+        2 => Just(Op::RequestMore),
+        1 => Just(Op::RequestByte),
+        1 => (0u64..=300_000).prop_map(Op::RequestByteAt),
+        1 => Just(Op::SetMark),
+        1 => (0u8..=8, 0u16..=40).prop_map(|(num, add)| Op::Request { num, add }),
+        1 => prop_oneof![Just(64usize), Just(4096usize), Just(16384usize), Just(100_000usize)].prop_map(Op::SetChunk),
+    ];
+    (
+        data_strategy(5000),
+        300_000usize..=1_000_000,
+        feed_strategy(),
+        prop_oneof![3 => Just(None), 1 => Just(Some(4096usize)), 1 => Just(Some(64usize)), 1 => Just(Some(65_536usize))],
+        proptest::collection::vec(op, 4..30),
+        proptest::option::weighted(0.2, (any::<u16>(), errkind_strategy())),
+    )
+        .prop_map(|(base, len, mut feed, chunk, ops, fail)| {
+            let mut data = Vec::with_capacity(len + base.len());
+            let mut round = 0u8;
+            while data.len() < len {
+                // position-dependent so that a stale window is not mistaken for the right one
+                data.extend(base.iter().map(|b| b.wrapping_add(round)));
+                data.push(round);
+                round = round.wrapping_add(1);
+            }
+            feed.chunk = chunk;
+            // reads of kilobytes, otherwise a megabyte takes a million calls
+            feed.sched.steps = vec![crate::source::Step::Give(if base.len() % 2 == 0 { u32::MAX } else { 3000 + base.len() as u32 })];
             if let Some((f, kind)) = fail {
                 let k = ((f as usize) * (data.len() + 1)) >> 16;
                 feed.sched.fail_at = Some((k, kind));
